@@ -166,7 +166,7 @@ func tuneBlockSum(r Rng, sc *pairScenario, want int) {
 
 func runC01(ctx *Ctx) error {
 	r, res := ctx.Rng, ctx.Res
-	res.Rule = "cases: pairs of real Sessions (random master/slave, MOTD, batched/unbatched handlers, 0..12 valid messages each way with non-ASCII subjects, precedence markers, attachments, long encoded titles; per-MID accept/reject/defer policies) over an in-memory duplex with read segmentation 1..300 bytes or unlimited. Oracle: the statement of C01 on the handlers' logs (delivered exactly once and intact, reported sent exactly once, rejected/deferred reported and not transferred, stats, nil results, closed). Correspondence: each real side vs the model side fed with the bytes its peer actually sent (wire bytes, callbacks, stats, result). GZIP_EXPERIMENT pairs are checked by the oracle only. Non-trivial: at least one message body transferred; distinct by scenario."
+	res.Rule = "cases: pairs of real Sessions (random master/slave, MOTD, batched/unbatched handlers, 0..12 valid messages each way with non-ASCII subjects, precedence markers, attachments, long encoded titles, MIDs that differ only in letter case within one block; per-MID accept/reject/defer policies) over an in-memory duplex with read segmentation 1..300 bytes or unlimited. Oracle: the statement of C01 on the handlers' logs (delivered exactly once and intact, reported sent exactly once, rejected/deferred reported and not transferred, stats, nil results, closed). Correspondence: each real side vs the model side fed with the bytes its peer actually sent (wire bytes, callbacks, stats, result). GZIP_EXPERIMENT pairs are checked by the oracle only. Non-trivial: at least one message body transferred; distinct by scenario."
 	var lines, impl []string
 	var cases []interface{}
 	n := ctx.N(120, 1500)
@@ -183,6 +183,18 @@ func runC01(ctx *Ctx) error {
 			// a one-proposal block whose lines sum to a chosen residue modulo 256: the block
 			// checksum is then 0, 0xff or 0x80 (seeded change C01-b miscomputed the first)
 			tuneBlockSum(r, &sc, []int{0, 1, 128}[(i/10)%3])
+		}
+		if i%10 == 3 {
+			// two distinct MIDs that differ only in letter case, in one proposal block: each is a
+			// message of its own (answered, transferred and reported separately)
+			base := "AB" + r.StringFrom(alnumUpper, 8)
+			other := strings.ToLower(base[:3]) + base[3:]
+			sc.A.Outbox = append([]*fbb.Message{r.Message(sc.A.Mycall, base), r.Message(sc.A.Mycall, other)}, sc.A.Outbox...)
+			if len(sc.A.Outbox) > 4 {
+				sc.A.Outbox = sc.A.Outbox[:4]
+			}
+			delete(sc.B.Policy, base)
+			delete(sc.B.Policy, other)
 		}
 		gz := i%9 == 8
 		if gz {
